@@ -74,6 +74,11 @@ type Lookup struct {
 
 	freeRand  *gen.Rand
 	freeDelay func() time.Duration
+	// SlowFilter makes the node filter (which the operation calls with its lock held) dawdle now and
+	// then, so that other goroutines queue up on the operation's lock.
+	SlowFilter bool
+	slowCtr    atomic.Uint64
+	stoppedAt  atomic.Int64 // tick at which Stopped() was observed, 0 = not yet
 }
 
 func (l *Lookup) find(prop, sig, detail string) {
@@ -172,6 +177,10 @@ func (l *Lookup) doQuery(ctx context.Context, a krpc.NodeAddr) traversal.QueryRe
 	} else if !pass {
 		l.find("C04", "query-to-filtered-address", fmt.Sprintf("%v was queried although the node filter rejects it under every ID it was reported with", addr))
 	}
+	if at := l.stoppedAt.Load(); at != 0 && c.enter > at {
+		// Stopped() has fired: the operation is over; nothing may start any more.
+		l.find("C03", "query-started-after-stopped-was-signalled", fmt.Sprintf("query to %v started after Stopped() had fired", addr))
+	}
 	if l.stopCalled && !l.Free {
 		// Controlled mode only: Stop was called at a quiescent point (the run loop was past its
 		// fan-out loop), so no query may start after it. Free-running, Stop can legitimately race
@@ -215,6 +224,15 @@ func (l *Lookup) Start() {
 	in := traversal.OperationInput{Target: l.Net.Target, Alpha: l.Net.Alpha, K: l.Net.K, DoQuery: l.doQuery}
 	if l.Net.FilterKind != "none" {
 		in.NodeFilter = l.Net.NodeFilter
+	}
+	if l.SlowFilter {
+		inner := l.Net.NodeFilter
+		in.NodeFilter = func(a types.AddrMaybeId) bool {
+			if x := l.slowCtr.Add(0x9e3779b97f4a7c15); (x>>7)%8 == 0 {
+				time.Sleep(time.Duration(x>>20%120) * time.Microsecond)
+			}
+			return inner(a)
+		}
 	}
 	if l.Net.DataKind != "none" {
 		in.DataFilter = l.Net.DataFilter
